@@ -29,6 +29,9 @@ const (
 	// EJournalRef: register a reference-typed variable, store a 40-byte string (out of place: head word + two data
 	// words), journal it, change its first data word, journal, change it back, journal (long values a, b, a)
 	EJournalRef
+	// ECallLeaf: one more call attempt by the same frame - a zero-value CALL with empty calldata to the code-less
+	// account (as a Post effect: a second call issued after the frame's first one has returned or failed)
+	ECallLeaf
 	NumEffects
 )
 
@@ -371,6 +374,8 @@ func emitEffect(p *asm.P, e Effect, id, kid, pos int) {
 			p.Push(val).Push(key).Op(asm.SSTORE)
 			emit(j)
 		}
+	case ECallLeaf:
+		p.Push(0).Push(0).Push(0).Push(0).Push(0).PushAddr(Codeless).Op(asm.GAS, asm.CALL, asm.POP)
 	case EJournalRef:
 		for _, w := range gen.StrWords(0x200, []byte(RefName(kid, pos))) {
 			p.Push32(w.Word).Push(w.Off).Op(asm.MSTORE)
